@@ -308,6 +308,19 @@ def run(ctx) -> None:
         ok = bool(var_tests) and match.only_via_edges(cfg, cn, [(n, "F") for n, _ in var_tests])
         ctx.ob("C09.R2-sibling-classifiers", cn.ast, ok, "a variable producer is never expanded" if ok else
                "a reference whose producer is a variable can be expanded into a component reference", construct="expand <- not is_var_reference")
+    # the variable test looks at the PRODUCER part of the parsed reference only: a variable or an index below a known producer
+    # ('gen/%(molecule)s.xyz:ref', 'gen/frames[0].xyz:copy') does not make the reference a non-component
+    producer_names = {st.targets[0].elts[1].id for st in source.walk_own(epc) if isinstance(st, ast.Assign) and isinstance(st.targets[0], ast.Tuple)
+                      and len(st.targets[0].elts) >= 2 and isinstance(st.targets[0].elts[1], ast.Name) and isinstance(st.value, ast.Call)
+                      and last_attr(st.value) in ("ParseDataReferenceFull", "ParseDataReference", "ParseProducerReference")}
+    for n, _ in var_tests:
+        arg = n.ast.args[0] if n.ast.args else None
+        ok = isinstance(arg, ast.Name) and arg.id in producer_names
+        ctx.ob("C09.R2-sibling-classifiers", n.ast, ok, "the variable test is applied to the producer part of the parsed reference" if ok else
+               "the variable test is applied to %s, not to the producer part of the parsed reference: a reference to a known component whose path "
+               "holds a %%(variable)s or an [index] is left relative while ParseDataReferenceFull / is_datareference_to_component / "
+               "compile_reference still classify it as that component" % (short(arg, 30) if arg is not None else "nothing"),
+               construct="expand: is_var_reference(<producer>)")
     epc_roles = classifier_roles(epc)
     # roles: DIRECT = the boolean local defined from 'top_level_folders is not None and (...)'; REFC = the local initialised
     # from the force_expand parameter
